@@ -207,7 +207,8 @@ type Call struct {
 	FaultWrite  int // k-th Write on the writer fails
 	FaultKind   int // see Probes.Kind
 	Tokens      bool
-	SetCfg      int // which Set configuration the call runs on (C10: 0 = default escaper, 1 = no escaper + a global)
+	NilVars     bool // Execute is called with nil variables; what the templates need is provided as Set globals
+	SetCfg      int  // which Set configuration the call runs on (C10: 0 = default escaper, 1 = no escaper + a global)
 }
 
 func (c Call) String() string {
@@ -223,6 +224,9 @@ func (c Call) String() string {
 	}
 	if c.SetCfg > 0 {
 		s += fmt.Sprintf(" on-set#%d", c.SetCfg)
+	}
+	if c.NilVars {
+		s += " nil-variables"
 	}
 	if c.FaultWrite > 0 {
 		s += fmt.Sprintf(" fault=write#%d", c.FaultWrite)
@@ -274,6 +278,11 @@ func Vars(d gen.DataSpec, p *Probes) jet.VarMap {
 	vm.SetFunc("fail", p.fn(true))
 	vm.SetFunc("mark", p.fn(false))
 	vm.Set("vfn", func(xs ...int) int { return len(xs) })
+	vm.SetFunc("letg", func(a jet.Arguments) reflect.Value {
+		// the Runtime API from inside a function: declare a variable in the outermost template scope
+		a.Runtime().LetGlobal(a.Get(0).String(), a.Get(1).Interface())
+		return reflect.ValueOf("")
+	})
 	vm.Set("rng", &probeRanger{p: p, items: []string{"ra", "rb"}})
 	vm.Set("plain", &indexlessRanger{items: []string{"pa", "pb"}})
 	vm.Set("rnd", probeRenderer{p})
@@ -316,6 +325,13 @@ func Exec(set *jet.Set, c Call, tag string) Outcome {
 		return o
 	}
 	vm := Vars(c.Data, p)
+	if c.NilVars {
+		// everything the templates refer to becomes a global of the Set; Execute gets no variables
+		for _, k := range vm.SortedKeys() {
+			set.AddGlobal(k, vm[k].Interface())
+		}
+		vm = nil
+	}
 	data := c.Data.Data()
 	var xerr error
 	o.Panic = sim.Guard(func() { xerr = t.Execute(w, vm, data) })
